@@ -180,7 +180,7 @@ def check(tier, seed):
     impl = fw.build_harness(release=False)
 
     # ---- stage C: the table against the implementation, and the model's prediction
-    per = 2 if tier == 'quick' else 6
+    per = 2 if tier == 'quick' else 10
     table = P.probe_merge(rng.randrange(1 << 30), per=per)
     inst = P.instances()
     model_exe, model_err = None, None
@@ -219,13 +219,13 @@ def check(tier, seed):
                 model_bad.append({'instance': k, 'model_predicts': pred, 'implementation': obs})
 
     # ---- stage W: the statement on generated pairs
-    n_pairs = 60 if tier == 'quick' else 600
+    n_pairs = 60 if tier == 'quick' else 2500
     pairs = []
     for j in range(n_pairs):
         ov = R.OVERLAPS[j % len(R.OVERLAPS)]
         ta, tb, info = R.gen_merge_pair(rng, S, ov, size=rng.choice(['small', 'small', 'medium']))
         pairs.append((ov, ta, tb))
-    twins = P.twin_pairs(rng.randrange(1 << 30), per=1 if tier == 'quick' else 3)
+    twins = P.twin_pairs(rng.randrange(1 << 30), per=1 if tier == 'quick' else 8)
     for k, ta, tb in twins:
         pairs.append(('twin:' + k, ta, tb))
     loads = R.run_cases('LOAD', [R.load_case(t) for ov, ta, tb in pairs for t in (ta, tb)], binary=impl)
